@@ -749,6 +749,34 @@ func apiCheckErrors(t *testing.T) {
 		}
 	}
 	rec(nil, 0)
+	if t.Failed() {
+		return
+	}
+	// the (expected, found) pair of a type mismatch, for every step kind over every kind of value
+	kinds := []struct{ step, text, expected string }{
+		{".x", ".x", "object"}, {"['x']", "['x']", "object"}, {"['x','y']", "['x','y']", "object"}, {".*", ".*", "object/array"}, {"..x", "..", "object/array"},
+		{"[?(@.x)]", "[?(@.x)]", "object/array"}, {"[0]", "[0]", "array"}, {"[0:1]", "[0:1]", "array"}, {"[0,1]", "[0,1]", "array"},
+	}
+	vals := []struct{ doc, found string }{
+		{`{"v":null}`, "null"}, {`{"v":1}`, "float64"}, {`{"v":"s"}`, "string"}, {`{"v":true}`, "bool"},
+		{`{"v":{}}`, "map[string]interface {}"}, {`{"v":[]}`, "[]interface {}"},
+	}
+	for _, k := range kinds {
+		for _, v := range vals {
+			if (k.expected != "array" && v.found == "map[string]interface {}") || (k.expected != "object" && v.found == "[]interface {}") {
+				continue
+			}
+			for _, tail := range []string{"", ".z"} {
+				path := "$.v" + k.step + tail
+				_, err := Retrieve(path, apiDecode(v.doc))
+				want := fmt.Sprintf("type unmatched (expected=%s, found=%s, path=%s)", k.expected, v.found, k.text)
+				if err == nil || err.Error() != want {
+					t.Errorf("REPRODUCED: %q on %s: got %v, expected %q", path, v.doc, err, want)
+					return
+				}
+			}
+		}
+	}
 }
 
 // C02: Parse is total
